@@ -27,6 +27,10 @@ pub enum Op {
     Gen { obj: String, method: String, arg: i32 },
     /// `Module::parse` + `load_link_evaluate` + `run_jobs` of a self-contained module
     Module { src: String },
+    /// Only on the survivor context, only if the previous entry failed: the generator that was cut
+    /// in the middle of `next()` must be finished (a further `next()` answers `{done:true}`), not
+    /// stuck in the executing state.
+    GenPostMortem { obj: String },
 }
 
 #[derive(Serialize, Deserialize, Clone, Debug)]
@@ -54,6 +58,7 @@ function thrower(k){ if (k<=0) throw new RangeError('thrower'); return thrower(k
 function K(a){ if (a<0) throw new TypeError('K neg'); this.a=a; }
 class Cls { constructor(a){ if (a<0) throw new Error('Cls neg'); this.a=a; } }
 function* genf(n){ try { for (var i=0;i<n;i++) yield i; } finally { print('genf finally'); } }
+function* genBomb(n){ yield 'a'; bombLoop(n); yield 'b'; }
 function viaMap(n){ return [1,2,3].map(function(x){ return bombLoop(n)+x; }).length; }
 function viaGetter(n){ return ({get p(){ return bombRec(n); }}).p; }
 function viaProxy(n){ return new Proxy({}, {get(t,k){ return bombLoop(n); }}).zz; }
@@ -328,6 +333,19 @@ impl Gen<'_> {
         Entry { op, limits: Some(limits), expect: "any".into(), kind: format!("kernel-{name}") }
     }
 
+    /// def / next / next-under-a-limit / post-mortem, as a unit
+    fn gen_cut_unit(&mut self) -> Vec<Entry> {
+        let it = self.fresh("itb");
+        let n = self.rng.range(5, 40);
+        let l = self.rng.range(0, n + 3);
+        vec![
+            Entry { op: Op::Eval { src: format!("var {it} = genBomb({n}); print(typeof {it});") }, limits: None, expect: "ok".into(), kind: "def-genbomb".into() },
+            Entry { op: Op::Gen { obj: it.clone(), method: "next".into(), arg: 0 }, limits: None, expect: "ok".into(), kind: "gen-next".into() },
+            Entry { op: Op::Gen { obj: it.clone(), method: "next".into(), arg: 0 }, limits: Some((l, 512, 10 * 1024)), expect: "any".into(), kind: "gen-next-under-limit".into() },
+            Entry { op: Op::GenPostMortem { obj: it }, limits: None, expect: "any".into(), kind: "gen-post-mortem".into() },
+        ]
+    }
+
     fn gen_resume(&mut self) -> Option<Entry> {
         if self.gens.is_empty() {
             return None;
@@ -362,6 +380,10 @@ pub fn generate(rng: &mut Rng, tier: Tier) -> Value {
     let mut g = Gen { rng, n: 0, globals: vec![], lexicals: vec![], gens: vec![] };
     let mut entries = vec![];
     for _ in 0..len {
+        if g.rng.chance(1, 15) {
+            entries.extend(g.gen_cut_unit());
+            continue;
+        }
         let e = match g.rng.below(10) {
             x if x < fail_bias.min(7) => {
                 match g.rng.below(5) {
@@ -484,6 +506,7 @@ fn run_entry(ctx: &mut Context, host: &Host, e: &Entry, rep: &mut RunReport, che
                 }
             }
         }
+        Op::GenPostMortem { .. } => "ok:skipped".into(),
         Op::Module { src } => {
             let m = boa_engine::Module::parse(Source::from_bytes(src.as_str()), None, ctx);
             observe(ctx, "Module::parse", false);
@@ -554,6 +577,21 @@ pub fn execute(v: &Value) -> RunReport {
     x.eval(Source::from_bytes(PRELUDE)).expect("prelude");
     let mut xlog: Vec<(String, Vec<String>)> = vec![];
     for (i, e) in sc.entries.iter().enumerate() {
+        if let Op::GenPostMortem { obj } = &e.op {
+            let prev_failed = xlog.last().is_some_and(|(c, _)| failed(c));
+            if prev_failed {
+                let next = Entry { op: Op::Gen { obj: obj.clone(), method: "next".into(), arg: 0 }, limits: None, expect: "any".into(), kind: e.kind.clone() };
+                let comp = run_entry(&mut x, &hx, &next, &mut rep, true, i);
+                hx.trace.take();
+                rep.probe("generator_post_mortem", 1);
+                if !comp.contains("done:true") {
+                    rep.violate("generator-stuck-after-failure", format!("entry {i}: a generator that was cut by a limit inside next() answers {comp} to the next next()"));
+                }
+            }
+            // not part of the twin comparison: mark as failed so that the twin skips it
+            xlog.push(("skipped".into(), vec![]));
+            continue;
+        }
         let comp = run_entry(&mut x, &hx, e, &mut rep, true, i);
         let tr = hx.trace.take();
         rep.steps += 1;
